@@ -90,6 +90,21 @@ def write_if_changed(path: Path, text: str) -> bool:
     return True
 
 
+_DEADLINE = [None]
+
+
+def start_budget(seconds: float):
+    """The check driver calls this once: after `seconds` of wall time the OPTIONAL work of a run
+    (shrinking a failing input further, neighbourhood searches after a violation was already
+    found) stops, so that a run on a violating tree still ends in bounded time.  It never cuts
+    the main evaluation, and never turns a found violation into silence."""
+    _DEADLINE[0] = time.time() + seconds
+
+
+def over_budget() -> bool:
+    return _DEADLINE[0] is not None and time.time() > _DEADLINE[0]
+
+
 def regenerate() -> list[str]:
     """Run the translators (source of /repo -> coq/gen/*.v).  Returns error strings
     (a translator that refuses the source is an obligation that no longer checks)."""
